@@ -550,6 +550,19 @@ func c16Run(ctx *core.Ctx, tree int, dotu bool) core.Result {
 			continue
 		}
 		statIs(12, nd.rel, "object "+nd.kind, "stat-differs;"+nd.kind)
+		if tfi, terr := os.Stat(filepath.Join(e.root, nd.rel)); nd.kind != "fifo" && (terr != nil || tfi.Mode()&os.ModeNamedPipe == 0) {
+			// (not for a pipe, nor a link to one: opening it would wait for a writer)
+			// … and still describes that object once the fid has been opened (for a symbolic link the open reaches
+			// through to the target; the fid keeps designating the link)
+			probe := uint32(14)
+			if w2 := rr.rpc(&wire.Msg{Type: wire.Twalk, Fid: 12, Newfid: probe}); w2 != nil && w2.Type == wire.Rwalk {
+				if o := rr.rpc(&wire.Msg{Type: wire.Topen, Fid: probe, Mode: 0}); o != nil && o.Type == wire.Ropen {
+					statIs(probe, nd.rel, "object "+nd.kind+" through a fid that has been opened", "stat-differs-when-open;"+nd.kind)
+					res.Count("stats_of_open_fids_compared", 1)
+				}
+				rr.rpc(&wire.Msg{Type: wire.Tclunk, Fid: probe})
+			}
+		}
 		st := rr.rpc(&wire.Msg{Type: wire.Tstat, Fid: 12})
 		if st != nil && st.Type == wire.Rstat {
 			ino := fi.Sys().(*syscall.Stat_t).Ino
